@@ -8,6 +8,8 @@ for m in mods: importlib.import_module(m)
 e = Engine()
 import contracts.domain as d
 d.declare(e)
+d.declare_io(e)
+d.declare_licensing(e)
 allv=[]
 for fn in fns:
     t=time.time()
